@@ -8,6 +8,7 @@ Case kinds (first token):
   tb  table level: real trace tsTable without loops; writes, flushes, merges with an injected sampler
   cv  traceFragmentCoverage / HasInterior on a segment time range (all Include flags) + the guard a
       session builds from it resolving a DROP for given trace bounds
+  sg  traceEvaluationStager.stage: per-trace bounds over physical blocks in any timestamp order, maturity
   sp  searchPBM as a pure function on a primary-block index (first ids, duplicates across blocks)
   pb  partIter over a real part written through the block writer with primary blocks cut where the
       case says (a trace straddling primary-block boundaries without multi-megabyte payloads)
@@ -249,6 +250,29 @@ def gen_coverage(rng):
     return "cv %d %d %s %d %d %d" % (start, end, flags, grace, tmin, tmax)
 
 
+def gen_stager(rng):
+    """physical blocks per trace with (min,max) timestamps in any order (newest first, oldest first,
+    interleaved), occasionally unknown / inverted bounds or trace ids out of order"""
+    frontier = 1500
+    toks = ["sg", str(frontier)]
+    tid = rng.randint(1, 3)
+    for _ in range(rng.choice([1, 2, 2, 3])):
+        n = rng.choice([1, 2, 2, 3, 4])
+        for _ in range(n):
+            lo = rng.choice([1100, 1200, 1499, 1500, 1501, 1800, 1990, rng.randint(1000, 2000)])
+            hi = lo + rng.choice([0, 0, 1, 5, 300])
+            known = "1"
+            r = rng.random()
+            if r < 0.05:
+                known = "0"
+            elif r < 0.09:
+                lo, hi = hi + 1, lo
+            toks.append("%d:%d:%d:%s" % (tid, lo, hi, known))
+        tid += rng.choice([1, 1, 2]) if rng.random() < 0.93 else -1
+        tid = max(tid, 0)
+    return " ".join(toks)
+
+
 TIDS = ["a", "ab", "b", "c", "d", "e"]
 
 
@@ -278,6 +302,15 @@ class TableGen:
             out.append("%s.%s.%d" % (tid, sid, ts))
         return ",".join(out)
 
+    def big_case(self, grace):
+        rng = self.rng
+        self.nsid += 3
+        new, old = 1600, 1600 - rng.choice([grace // 2, grace, 1])
+        now = new + grace - rng.choice([1, 1, 0, -1])          # frontier just below / at / above the newest span
+        w1 = "W:a.s%dp2100.%d,a.s%d.%d,b.s%d.%d" % (self.nsid, new, self.nsid + 1, max(1000, old), self.nsid + 2, 1200)
+        ops = [w1, "F", "O", "M:H:*:%d:%s:0:a=D.b=%s:-" % (now, rng.choice("oe"), rng.choice("DK")), "O"]
+        return "tb 1000 2000 %d %s" % (grace, " ".join(ops))
+
     def case(self):
         rng = self.rng
         grace = rng.choice([4, 10, 10, 40, 40, 150, 150, 400, 600])
@@ -298,6 +331,10 @@ class TableGen:
         else:
             self.tight = False
         nparts = 0
+        if rng.random() < 0.012:
+            # a trace with > maxUncompressedSpanSize (2 MiB) of payload: two physical blocks in one part,
+            # the first one holding the NEWEST span; merged while that span is younger than now - grace
+            return self.big_case(grace)
         for _ in range(rng.choice([2, 2, 3, 3, 4, 5])):
             ops.append("W:" + self.spans(tids, grace, far=gapviol and rng.random() < 0.4))
             nparts += 1
@@ -416,7 +453,7 @@ class C13(vlib.Spec):
     theorems = ["Banyan.C13." + t for t in [
         "trace_query_complete", "searchPBM_spec", "trace_query_exact", "trace_query_full_range", "exactFilter_noFalseNegatives",
         "merge_no_sampler_lossless",
-        "resolve_drop_sound", "resolve_keeps_otherwise", "resolve_cancelled_defers", "resolve_drop_no_outside_fragment", "coverage_exact", "session_drop_inside_segment",
+        "resolve_drop_sound", "resolve_keeps_otherwise", "resolve_cancelled_defers", "resolve_drop_no_outside_fragment", "coverage_exact", "session_drop_inside_segment", "stage_bounds_exact", "stage_single_trace",
         "revalidate_publish_sound",
         "sampler_fail_open", "chain_drop_needs_valid_verdict", "execute_fail_open",
         "sidx_keep_spec", "sidx_merge_spec", "ceiling_one_way",
@@ -467,7 +504,8 @@ class C13(vlib.Spec):
                 "gr:V1:snapshot_delta_clear", "gr:V0:snapshot_delta_positive", "tb:trace-dropped-whole",
                 "tb:drop-vetoed-by-guard", "tb:lossless-retry-prevalidation", "tb:lossless-retry-introducer",
                 "tb:decide-error-or-panic", "tb:late-part-introduced", "ch:timeout", "ds:panic",
-                "sp:boundary", "pb:trace-straddles-primary-blocks", "cv:drop", "cv:one-past-the-edge"]
+                "sp:boundary", "pb:trace-straddles-primary-blocks", "cv:drop", "cv:one-past-the-edge",
+                "sg:newest-block-first"]
         missing = [k for k in need if self.stats.get(k, 0) == 0]
         R.oblige("branch coverage of the generated cases (%d branch kinds)" % len(need), not missing,
                  "never exercised: %s" % missing)
@@ -481,6 +519,7 @@ class C13(vlib.Spec):
         out += [gen_chain(rng) for _ in range(n * 10 // 100)]
         out += [gen_search(rng) for _ in range(n * 3 // 100)]
         out += [gen_coverage(rng) for _ in range(n * 6 // 100)]
+        out += [gen_stager(rng) for _ in range(n * 5 // 100)]
         pbs = []
         while len(pbs) < n * 8 // 100:
             pbs += gen_part_layouts(rng)
@@ -572,6 +611,38 @@ class C13(vlib.Spec):
                 self.stats["cv:segment-boundary"] += 1
                 if tmax + grace in (last + 1,) or tmin - grace in (first - 1,):
                     self.stats["cv:one-past-the-edge"] += 1
+            return None
+        if f[0] == "sg":
+            if g.startswith("PANIC"):
+                return ("violation", "stager panicked: " + g[:200])
+            frontier = int(f[1])
+            groups, order = [], []
+            for b in f[2:]:
+                t, lo, hi, k = b.split(":")
+                if not order or order[-1] != t:
+                    order.append(t)
+                    groups.append([])
+                groups[-1].append((int(lo), int(hi), k == "1"))
+            got = re.findall(r"(\d+)\[(-?\d+),(-?\d+),([01]),([01])\]", g)
+            if len(got) != len(groups):
+                return ("violation", "stager built %d groups for %d runs of equal trace ids" % (len(got), len(groups)))
+            for t, blocks, (gt, gmin, gmax, gvalid, gelig) in zip(order, groups, got):
+                ok = all(k and lo <= hi for lo, hi, k in blocks)
+                if gt != t or (gvalid == "1") != ok:
+                    return ("violation", "group %s: id/validity mismatch (%s, valid=%s)" % (t, gt, gvalid))
+                if not ok:
+                    continue
+                if len(blocks) > 1:
+                    self.stats["sg:multi-block-trace"] += 1
+                    if blocks[0][1] == max(b[1] for b in blocks) and blocks[0][1] > blocks[-1][1]:
+                        self.stats["sg:newest-block-first"] += 1
+                wmin, wmax = min(b[0] for b in blocks), max(b[1] for b in blocks)
+                if (int(gmin), int(gmax)) != (wmin, wmax):
+                    return ("violation", "trace %s staged as blocks %s: group bounds [%s,%s], must be [%d,%d] (min of minima, max of maxima)"
+                            % (t, blocks, gmin, gmax, wmin, wmax))
+                if (gelig == "1") != (wmax <= frontier):
+                    return ("violation", "trace %s: maturity decision %s, but its newest span is at %d and the frontier at %d"
+                            % (t, gelig, wmax, frontier))
             return None
         if f[0] == "pb":
             if g.startswith("PANIC") or g.startswith("ERR"):
@@ -734,11 +805,14 @@ class C13(vlib.Spec):
         droppable = set()    # tids for which some Decide call returned normally with a DROP verdict
         sampler_seen = False
         last = None
+        fresh = False
         pending_merge = None
         for op, e in zip(ops, ev):
             q = op.split(":")
             if q[0] == "I":
                 self.seg[2] = q[1]
+            if q[0] in ("W", "F"):
+                fresh = False
             if q[0] == "W":
                 for sp in q[1].split(","):
                     expected.setdefault(sp.split(".")[0], []).append(sp)
@@ -762,6 +836,10 @@ class C13(vlib.Spec):
                         for sp in late.split("!")[1].split(","):
                             expected.setdefault(sp.split(".")[0], []).append(sp)
                 proposed = set()
+                if q[1] == "H" and last is not None and fresh:
+                    v = self.check_maturity(q, txt, last, grace)
+                    if v:
+                        return v
                 if q[1] != "N":
                     table = dict(kv.split("=") for kv in q[6].split(".")) if q[6] != "-" else {}
                     m = re.search(r"dec=(\S+)", txt)
@@ -775,13 +853,50 @@ class C13(vlib.Spec):
                                         droppable.add(tid)
                                         proposed.add(tid)
                 pending_merge = (q, last, proposed, txt)
+                fresh = False
             elif q[0] == "O":
                 d = e[1]
                 v = self.check_dump(d, expected, droppable, sampler_seen, grace, pending_merge, line)
                 if v:
                     return v
                 last = d
+                fresh = True
                 pending_merge = None
+        return None
+
+    def check_maturity(self, q, txt, last, grace):
+        """hot merges: a trace whose newest span in the selected parts is younger than now - merge_grace
+        must not reach Decide (later spans of it may still arrive)"""
+        m = re.search(r"dec=(\S+)", txt)
+        if not m or m.group(1) == "-":
+            return None
+        ids = sorted(last["parts"])
+        sel = q[2]
+        if sel == "*":
+            chosen = ids
+        elif sel == "f*":
+            chosen = [i for i in ids if last["parts"][i]["kind"] == "f"]
+        elif sel == "m*":
+            chosen = [i for i in ids if last["parts"][i]["kind"] == "m"]
+        else:
+            chosen = [ids[int(t[1:])] for t in sel.split("+") if int(t[1:]) < len(ids)]
+        if any(last["parts"][i]["kind"] == "f" for i in chosen):
+            chosen = [i for i in chosen if last["parts"][i]["kind"] == "f"]
+        newest = {}
+        for i in chosen:
+            for r in last["parts"][i]["rows"]:
+                tid = r.split("/")[0]
+                ts = int(r.rsplit(".", 1)[1])
+                newest[tid] = max(newest.get(tid, ts), ts)
+        frontier = int(q[3]) - grace
+        for call in m.group(1).split(";"):
+            for tid in call.partition("=")[0].split("+"):
+                if tid in newest:
+                    if newest[tid] > frontier:
+                        return ("violation", "trace %s reached Decide although its newest span (ts %d) is younger than now - merge_grace = %d "
+                                "(an immature trace must be kept without evaluation)" % (tid, newest[tid], frontier))
+                    if newest[tid] == frontier:
+                        self.stats["tb:evaluated-at-the-frontier"] += 1
         return None
 
     def check_dump(self, d, expected, droppable, sampler_seen, grace, pending_merge, line):
